@@ -47,15 +47,21 @@ def render(e, field=lambda n: n):
     return "(%s %s %s)" % (render(e["a"], field), _BIN[t], render(e["b"], field))
 
 
-def as_string(e):
-    return render(e)
+# the record fields under other names: `e` and `pi` also name constants in the namespace a string expression is
+# evaluated in (math.*), which a record's own fields must shadow
+ALIAS = {"x": "e", "y": "pi"}
 
 
-def as_lambda_src(e, rec):
+def as_string(e, al=False):
+    return render(e, (lambda n: ALIAS.get(n, n)) if al else (lambda n: n))
+
+
+def as_lambda_src(e, rec, al=False):
+    nm = (lambda n: ALIAS.get(n, n)) if al else (lambda n: n)
     if rec == "dict":
-        return "lambda d: " + render(e, lambda n: "d[%r]" % n)
+        return "lambda d: " + render(e, lambda n: "d[%r]" % nm(n))
     if rec == "attr":
-        return "lambda d: " + render(e, lambda n: "d.%s" % n)
+        return "lambda d: " + render(e, lambda n: "d.%s" % nm(n))
     return "lambda d: " + render(e, lambda n: "d")
 
 
